@@ -48,6 +48,11 @@ def cases(rng, tier):
             out.append({"a": a, "dtype": dt, "near": True})
     for _ in range(300 if tier == "quick" else 3000):
         out.append({"a": rlgen.array_random(rng, 60), "dtype": rng.choice(gens.DTYPES), "near": rng.random() < 0.3})
+    # element types beyond the usual list: half precision, the widest unsigned / narrowest signed types once more
+    for a in rlgen.arrays_exhaustive(4):
+        out.append({"a": a, "dtype": "float16", "near": rng.random() < 0.3})
+        if rng.random() < 0.3:
+            out.append({"a": a, "dtype": "float16", "zeros": True})
     # LONG arrays made of a few long runs, with lengths around 2**8 and 2**16 and runs that cross / end at those positions
     # (block-wise or narrow-integer encoders show there); too long for the Lean driver: implementation vs oracle only
     for L in ([255, 256, 257, 65535, 65536, 65537, 70000, 131072, 131073] if tier == "quick" else
@@ -120,7 +125,7 @@ def distribution(ps):
 def _dmode(p):
     if p["dtype"] == "bool":
         return False
-    return "inf" if p["dtype"] in ("float32", "float64") else "small"
+    return "inf" if p["dtype"] in ("float32", "float64", "float16") else "small"
 
 
 def _same_source(f, x):
